@@ -212,6 +212,19 @@ def _round(case):
             if ok2:
                 c.true("q!=-q", e is False or e == False, "q != -q gave %r" % (e,))  # noqa
             c.eq("R(-q)=R(q)", np.asarray(qn.R, dtype=float), np.asarray(q.R, dtype=float), 1e-12)
+            # ... and both act on points as the rotation matrix does (single point, 3 x N array, base function)
+            p3 = np.array([0.7, -1.3, 2.1])
+            P3 = np.array([[0.7, -0.2, 1.5, 0.3], [-1.3, 0.4, 0.5, -2.2], [2.1, 1.1, -0.6, 0.9]])
+            for nm_, qq_ in (("q", q), ("-q", qn)):
+                okp, r_ = c.lib(nm_ + "*p", lambda: qq_ * p3.copy())
+                if okp:
+                    c.eq(nm_ + "*p/value", np.asarray(r_, dtype=float).ravel(), TX[:3, :3] @ p3, TOL, 3.0)
+                okp, r_ = c.lib(nm_ + "*P", lambda: qq_ * P3.copy())
+                if okp:
+                    c.eq(nm_ + "*P/value", np.asarray(r_, dtype=float), TX[:3, :3] @ P3, TOL, 3.0)
+                okp, r_ = c.lib("qvmul(" + nm_ + ",p)", L.base.qvmul, np.asarray(qq_.vec, dtype=float).copy(), p3.copy())
+                if okp:
+                    c.eq("qvmul(" + nm_ + ",p)/value", np.asarray(r_, dtype=float).ravel(), TX[:3, :3] @ p3, TOL, 3.0)
         # axis-angle extraction describes the same rotation for both representatives of the double cover
         for nm_, qq_ in (("q", q), ("-q", L.UnitQuaternion([float(-x) for x in v]))):
             okv, av = c.lib(nm_ + ".angvec", qq_.angvec)
